@@ -189,3 +189,229 @@ func famHistory(w *bufio.Writer, seed uint64, n int) error {
 	}
 	return nil
 }
+
+// ---------------------------------------------------------------------------------------
+// Mode "tree": the same programs with child collections - rounds that write, create (also
+// empty), delete and re-create child collections one and two levels down, cases whose data
+// is wholly in child collections - and every snapshot read in full (Get per universe key,
+// iteration, child collections recursively), so that the runner can compare each walked
+// snapshot, each revert and each reopen with the reference tree of the batches behind it.
+
+func footerTreeSx(snap moss.Snapshot) (pos int64, file string, dump sx, reads sx) {
+	d := moss.VerifDumpFooter(snap)
+	return d.FilePos, d.FileName, stackSx(d), readsSx(snap, baseUniverse, 0)
+}
+
+func famHistoryTree(w *bufio.Writer, seed uint64, n int) error {
+	emit := func(v sx) { w.WriteString(sxString(v)); w.WriteByte('\n') }
+	for i := 0; i < n; i++ {
+		cs := seed*1000003 + uint64(i)
+		r := newRng(cs ^ 0x7e)
+		dir := mustMkdirTemp(workDir, "histt")
+		cfg := Config{LL: "store", MMPn: 8, MMPd: 10, MaxPre: 4, LevelMaxSegs: 1 + r.intn(3), LevelMult: 2 + r.intn(3),
+			PctN: 99, PctD: 100}
+		leveled := r.chance(1, 4)
+		if leveled {
+			cfg.LevelMaxSegs, cfg.LevelMult, cfg.PctN, cfg.PctD = 1+r.intn(2), 2+r.intn(2), 1, 1
+		}
+		pickConcern := func() int {
+			if leveled && r.chance(4, 5) {
+				return 1
+			}
+			return r.pick([]int{7, 2, 1})
+		}
+		g := &gen{r: r, o: genOpts{mergeW: 10, childPct: 60}, universe: baseUniverse}
+		// a third of the cases keep ALL data in child collections, a sixth have no children at all
+		childOnly := r.chance(1, 3)
+		if !childOnly && r.chance(1, 4) {
+			g.o.childPct = 0
+		}
+		emit(L("case", i, int64(cs), cfg.sx(), L("universe", universeSx(baseUniverse)), L("childonly", childOnly)))
+		var s *moss.Store
+		var c moss.Collection
+		open := func(concern int) error {
+			cfg.Concern = concern
+			h := newH(cfg, dir)
+			h.gating = 0
+			so, po := h.storeOptions()
+			so.CollectionOptions.MergerIdleRunTimeoutMS = -1
+			var err error
+			s, c, err = moss.OpenStoreCollection(dir, so, po)
+			return err
+		}
+		closeColl := func() {
+			if c != nil {
+				c.Close()
+				c = nil
+			}
+		}
+		closeAll := func() {
+			closeColl()
+			if s != nil {
+				s.Close()
+				s = nil
+			}
+			sleepMicros(5000)
+		}
+		first := 0
+		if leveled {
+			first = 1
+		}
+		if err := open(first); err != nil {
+			return err
+		}
+		steps := 7 + r.intn(9)
+		rounds := 0
+		lastFile := ""
+		fail := false
+		reopenLine := func() bool {
+			if err := open(pickConcern()); err != nil {
+				emit(L("error", fmt.Sprintf("%q", err.Error())))
+				return false
+			}
+			fs, _ := s.Snapshot()
+			pos, file, dump, reads := footerTreeSx(fs)
+			fs.Close()
+			lastFile = file
+			emit(L("reopen", pos, dump, reads))
+			return true
+		}
+		for st := 0; st < steps && !fail; st++ {
+			switch r.pick([]int{50, 18, 20, 12}) {
+			case 0: // one persisted round
+				if c == nil {
+					closeAll()
+					if !reopenLine() {
+						fail = true
+						break
+					}
+				}
+				before := (&H{store: s}).storeCounters()
+				b := g.nonEmptyBatch()
+				if childOnly {
+					b.ops = nil
+					if len(b.kids) == 0 {
+						b.kids = []kid{{name: childNames[0], b: &tbatch{ops: []bop{{'s', []byte("k0"), g.value()}}}}}
+					}
+				}
+				if !hasKeyOps(b) {
+					// a round is waited for through the dirty gauges, which a batch without any key
+					// operation does not move (C20's subject): every batch here writes at least one key
+					if childOnly {
+						var keep []kid
+						for _, k := range b.kids {
+							if k.name != childNames[1] {
+								keep = append(keep, k)
+							}
+						}
+						b.kids = append(keep, kid{name: childNames[1], b: &tbatch{ops: []bop{{'s', []byte("k1"), g.value()}}}})
+					} else {
+						b.ops = []bop{{'s', []byte("k1"), g.value()}}
+					}
+				}
+				if r.chance(1, 8) {
+					// a child collection created (or touched) by an empty child batch: it exists, without any segment
+					b.kids = append(b.kids, kid{name: "ce", b: &tbatch{}})
+				}
+				if leveled && rounds == 0 && !childOnly {
+					b.ops = append(b.ops, bop{'s', []byte("k9"), bytes.Repeat([]byte("B"), 1500+r.intn(800))})
+				}
+				rounds++
+				if err := (&H{coll: c}).execBatch(b); err != nil {
+					emit(L("error", fmt.Sprintf("%q", err.Error())))
+					fail = true
+					break
+				}
+				waitPersisted(c)
+				kind := (&H{store: s}).persistChoice(before)
+				fs, _ := s.Snapshot()
+				pos, file, dump, reads := footerTreeSx(fs)
+				fs.Close()
+				newFile := lastFile != "" && file != "" && file != lastFile
+				if file != "" {
+					lastFile = file
+				}
+				emit(L("round", b.sx(), kind, pos, L("newfile", newFile), dump, reads))
+			case 1: // walk back from the current snapshot
+				fs, _ := s.Snapshot()
+				walk := []sx{"walk"}
+				cur := fs
+				for depth := 0; depth < 40; depth++ {
+					prev, err := s.SnapshotPrevious(cur)
+					if err != nil {
+						walk = append(walk, L("err", fmt.Sprintf("%q", err.Error())))
+						break
+					}
+					if cur != fs {
+						cur.Close()
+					}
+					if prev == nil {
+						cur = nil
+						break
+					}
+					pos, _, dump, reads := footerTreeSx(prev)
+					walk = append(walk, L(pos, dump, reads))
+					cur = prev
+				}
+				if cur != nil && cur != fs {
+					cur.Close()
+				}
+				fs.Close()
+				emit(walk)
+			case 2: // revert to a footer some steps back (0 = the current one)
+				closeColl()
+				fs, _ := s.Snapshot()
+				depth := r.intn(4)
+				cur := fs
+				for d := 0; d < depth; d++ {
+					prev, err := s.SnapshotPrevious(cur)
+					if err != nil || prev == nil {
+						break
+					}
+					if cur != fs {
+						cur.Close()
+					}
+					cur = prev
+				}
+				tpos, _, _, _ := footerTreeSx(cur)
+				err := s.SnapshotRevert(cur)
+				if cur != fs {
+					cur.Close()
+				}
+				fs.Close()
+				res := "ok"
+				if err != nil {
+					res = fmt.Sprintf("%q", err.Error())
+				}
+				ns, _ := s.Snapshot()
+				pos, _, dump, reads := footerTreeSx(ns)
+				ns.Close()
+				emit(L("revert", tpos, res, pos, dump, reads))
+			case 3: // close and reopen
+				closeAll()
+				if !reopenLine() {
+					fail = true
+				}
+			}
+		}
+		closeAll()
+		emit(L("end"))
+		os.RemoveAll(dir)
+	}
+	return nil
+}
+
+func hasKeyOps(b *tbatch) bool {
+	if b == nil {
+		return false
+	}
+	if len(b.ops) > 0 {
+		return true
+	}
+	for _, k := range b.kids {
+		if !k.del && hasKeyOps(k.b) {
+			return true
+		}
+	}
+	return false
+}
